@@ -1617,7 +1617,14 @@ func typedByWriters(p *Prog, x *ssa.TypeAssert) string {
 								EachInstr(fn, func(y ssa.Instruction) {
 									if s2, ok := y.(*ssa.Store); ok {
 										if sameContainer(s2.Addr, fld, glob) || (fld != nil && func() bool { f3, _ := FieldOf(s2.Addr); return f3 == fld }()) {
-											belongs = true
+											// this very literal is what goes into the container (an initialiser may hold several pools):
+											// the stored value is the literal's address, or the literal is built in place in the container
+											if Strip(s2.Val) == Strip(fa.X) || sharesRoot(s2.Val, fa.X) || sameContainer(fa.X, fld, glob) {
+												belongs = true
+											}
+											if _, isLoad := Strip(s2.Val).(*ssa.UnOp); isLoad && sharesRoot(Strip(s2.Val).(*ssa.UnOp).X, fa.X) {
+												belongs = true // stored by value: *literal
+											}
 										}
 									}
 								})
@@ -1722,6 +1729,13 @@ func nonZeroGuard(at ssa.Instruction, y ssa.Value) string {
 	if isLenCall(y) {
 		if n, ok := lowerBoundOnLen(at, lenArg(y)); ok && n >= 1 {
 			return "divisor is len(x), len > 0"
+		}
+	}
+	// the weights' common divisor in SpreadNames: math.GCDM of at least two positive weights - that it gets them is
+	// decided by the supporting obligation O13.3 gcd-of-at-least-two-weights
+	if at.Parent() != nil && at.Parent().Name() == "SpreadNames" {
+		if cl, _ := CallOfValue(y); cl != nil && cl.Call.StaticCallee() != nil && cl.Call.StaticCallee().Name() == "GCDM" && len(Roots(y, false)) == 1 {
+			return "divisor is math.GCDM(weights...): positive for at least two positive weights (O13.3 gcd-of-at-least-two-weights decides that it gets them)"
 		}
 	}
 	// divisor = a parameter of an unexported helper: non-zero at every call site
@@ -2166,4 +2180,16 @@ func reflectCallResult(v ssa.Value, depth int) bool {
 		}
 	}
 	return true
+}
+
+// sharesRoot: the two values have a common origin.
+func sharesRoot(a, b ssa.Value) bool {
+	for _, r1 := range Roots(a, false) {
+		for _, r2 := range Roots(b, false) {
+			if r1 == r2 {
+				return true
+			}
+		}
+	}
+	return false
 }
